@@ -2212,7 +2212,10 @@ fn compress_normal(d: &mut CompressorOxide, callback: &mut CallbackOxide) -> boo
         d.dict.size = cmp::min(d.dict.size + len_to_move, LZ_DICT_SIZE);
 
         let lz_buf_tight = d.lz.code_position > LZ_CODE_BUF_SIZE - 8;
-        let fat = ((d.lz.code_position * 115) >> 7) >= d.lz.total_bytes as usize;
+        // With static blocks forced a block can cost up to 9 bits per byte whatever it contains,
+        // so always end it while `flush_block` can still fall back to a stored block.
+        let fat = ((d.lz.code_position * 115) >> 7) >= d.lz.total_bytes as usize
+            || d.params.flags & TDEFL_FORCE_ALL_STATIC_BLOCKS != 0;
         let buf_fat = (d.lz.total_bytes > 31 * 1024) && fat;
 
         if lz_buf_tight || buf_fat {
@@ -2247,8 +2250,10 @@ const COMP_FAST_LOOKAHEAD_SIZE: usize = 4096;
 /// still fall back to a stored block, which is only possible while the block's data is inside
 /// the window. (Same test as in `compress_normal`.)
 #[inline]
-fn lz_buf_is_fat(lz: &LZOxide) -> bool {
-    lz.total_bytes > 31 * 1024 && ((lz.code_position * 115) >> 7) >= lz.total_bytes as usize
+fn lz_buf_is_fat(lz: &LZOxide, flags: u32) -> bool {
+    lz.total_bytes > 31 * 1024
+        && (((lz.code_position * 115) >> 7) >= lz.total_bytes as usize
+            || flags & TDEFL_FORCE_ALL_STATIC_BLOCKS != 0)
 }
 
 fn compress_fast(d: &mut CompressorOxide, callback: &mut CallbackOxide) -> bool {
@@ -2384,7 +2389,7 @@ fn compress_fast(d: &mut CompressorOxide, callback: &mut CallbackOxide) -> bool 
                 cur_pos = (cur_pos + cur_match_len as usize) & LZ_DICT_SIZE_MASK;
                 lookahead_size -= cur_match_len as usize;
 
-                if d.lz.code_position > LZ_CODE_BUF_SIZE - 8 || lz_buf_is_fat(&d.lz) {
+                if d.lz.code_position > LZ_CODE_BUF_SIZE - 8 || lz_buf_is_fat(&d.lz, d.params.flags) {
                     // These values are used in flush_block, so we need to write them back here.
                     d.dict.lookahead_size = lookahead_size;
                     d.dict.lookahead_pos = lookahead_pos;
@@ -2422,7 +2427,7 @@ fn compress_fast(d: &mut CompressorOxide, callback: &mut CallbackOxide) -> bool 
             cur_pos = (cur_pos + 1) & LZ_DICT_SIZE_MASK;
             lookahead_size -= 1;
 
-            if d.lz.code_position > LZ_CODE_BUF_SIZE - 8 || lz_buf_is_fat(&d.lz) {
+            if d.lz.code_position > LZ_CODE_BUF_SIZE - 8 || lz_buf_is_fat(&d.lz, d.params.flags) {
                 // These values are used in flush_block, so we need to write them back here.
                 d.dict.lookahead_size = lookahead_size;
                 d.dict.lookahead_pos = lookahead_pos;
